@@ -48,6 +48,14 @@ def main() -> int:
         return report.finish(ctx, started, mod.EXPLANATION, seed, replay_key)
     except model.AnalysisError as e:
         print(f'ANALYSIS-ERROR: property={prop} {e}')
+        if ctx.findings:
+            # findings established before the analyser gave up are still reported (a violation is never masked by exit 2)
+            try:
+                rc = report.finish(ctx, started, mod.EXPLANATION, seed, replay_key)
+                if rc == 1:
+                    return 1
+            except model.AnalysisError:
+                pass
         return 2
     except Exception:  # a crash of the analyser is never a verdict
         traceback.print_exc()
